@@ -1300,3 +1300,703 @@ _gen_cases_base_c08b = gen_cases
 def gen_cases(rng, tier):
     return _gen_cases_base_c08b(rng, tier) + gen_transport(rng, tier)
 # ---- end extend-c08b ----
+
+
+# ---- IpHeaders (extend-c08c) ----
+# IpHeaders now has a Coq model (Roundtrip/IpHeaders.v, composed of the Ipv4Header / Ipv6Header /
+# Ipv4Extensions models of this property and the Ipv6Extensions model of C12) + theorems
+# (Props/C08.v block extend-c08c).  The `iph` cases get their own line format (see the block
+# extend-c08c of harness/src/bin/c08.rs): the three slice decoders, read over a Cursor, write,
+# header_len, next_header, and for structured values also set_next_headers / set_payload_len.
+# Correspondence: impl line == model line (byte exact).  Oracle: below, on the implementation's own
+# answers and an independent byte-level reading of the case (chain walk, RFC 1071 checksum, masks).
+PROVED += ["iph"]
+EXT6 = (0, 43, 44, 51, 60)
+
+
+def _iph_toks(il):
+    """key=value tokens of an iph line (canon strings contain no blanks)"""
+    d = {}
+    for tok in il.split():
+        if "=" in tok:
+            a, b = tok.split("=", 1)
+            if a not in d:
+                d[a] = b
+    return d
+
+
+def _iph_sres(s):
+    """ok:<canon>:<n>,<fr>,<ls>,<off>+<len> -> (canon, n, fr, ls, off, len) | None"""
+    if not s.startswith("ok:"):
+        return None
+    body = s[3:]
+    canon, tail = body.rsplit(":", 1)
+    n, fr, ls, pos = tail.split(",")
+    o, l = pos.split("+")
+    return canon, int(n), int(fr), int(ls), int(o), int(l)
+
+
+def _iph_rres(s):
+    if not s.startswith("ok:"):
+        return None
+    canon, tail = s[3:].rsplit(":", 1)
+    n, pos = tail.split(",")
+    return canon, int(n), int(pos)
+
+
+def _iph_ck_of(hdr):
+    z = bytearray(hdr)
+    z[10] = z[11] = 0
+    return _rfc1071(z)
+
+
+def _iph_canon_ck(canon, ck):
+    """IPv4 canon with the header checksum field replaced"""
+    p = canon.split("|")
+    f = p[1].split(",")
+    f[9] = str(ck)
+    return "|".join([p[0], ",".join(f)] + p[2:])
+
+
+def _iph_chain_mask(first, data):
+    """independent walk over an IPv6 extension chain as the slice decoder places headers: returns
+    (keep mask of the consumed bytes, final number) or None when the chain is cut / malformed"""
+    seen = set()
+    nxt = first
+    pos = 0
+    mask = bytearray()
+    start = True
+    while True:
+        if nxt not in EXT6:
+            break
+        if nxt == 0 and not start:
+            return None
+        if nxt == 60:
+            slot = "fdst" if "rt" in seen else "dst"
+        else:
+            slot = {0: "hop", 43: "rt", 44: "frag", 51: "auth"}[nxt]
+        if slot in seen:
+            break
+        if len(data) - pos < 8 and nxt != 51:
+            return None
+        if nxt == 44:
+            n = 8
+            m = _ones(8)
+            m[1] = 0
+            m[3] = 0xF9
+        elif nxt == 51:
+            if len(data) - pos < 12:
+                return None
+            if data[pos + 1] == 0:
+                return None
+            n = (data[pos + 1] + 2) * 4
+            m = _ones(n)
+            m[2] = m[3] = 0
+        else:
+            n = (data[pos + 1] + 1) * 8
+            m = _ones(n)
+        if len(data) - pos < n:
+            return None
+        seen.add(slot)
+        nxt = data[pos]
+        mask += m
+        pos += n
+        start = False
+    return bytes(mask), nxt
+
+
+def _iph_oracle_bytes(parts, il):
+    data = _unhex(parts[2])
+    f = _iph_toks(il)
+    for k in ("v", "fs", "f4", "f6", "rd"):
+        if k not in f:
+            return "malformed line: " + il[:120]
+    ver = data[0] >> 4 if data else None
+    # dispatch = specific (also C06's business; cheap to check here)
+    if ver == 4 and (f["f4"] != f["fs"] or (f["f6"] not in ("err:content", "err:len"))):
+        return "from_ipv4_slice %s / from_ipv6_slice %s vs from_slice %s" % (f["f4"][:60], f["f6"][:60], f["fs"][:60])
+    if ver == 6 and (f["f6"] != f["fs"] or (f["f4"] not in ("err:content", "err:len"))):
+        return "from_ipv6_slice %s / from_ipv4_slice %s vs from_slice %s" % (f["f6"][:60], f["f4"][:60], f["fs"][:60])
+    fs = _iph_sres(f["fs"])
+    if fs is None:
+        if f["v"] != "-" or "w" in f:
+            return "rejected input but a value is printed"
+        if f["rd"].startswith("ok:"):
+            # read may only succeed where from_slice fails when the slice does not hold the announced packet
+            ann = (data[2] << 8 | data[3]) if ver == 4 else 40 + (data[4] << 8 | data[5])
+            if ann <= len(data):
+                return "read accepts (%s) what from_slice rejects (%s) although the slice holds the announced %d bytes" % (
+                    f["rd"][:80], f["fs"], ann)
+        return None
+    canon, n, fr, ls, off, plen = fs
+    if canon != "=":
+        return "from_slice canon is not the reference"
+    hl = int(f["hl"])
+    if off != hl:
+        return "payload starts at %d, header_len is %d" % (off, hl)
+    if off + plen > len(data):
+        return "payload %d+%d outside the %d byte input" % (off, plen, len(data))
+    if not f["w"].startswith("ok:"):
+        return "write refuses a decoded value: " + f["w"][:60]
+    w = _unhex(f["w"][3:])
+    if len(w) != hl:
+        return "write emitted %d bytes, header_len %d" % (len(w), hl)
+    if f["nh"] != "ok:%d" % n:
+        return "next_header() = %s, from_slice says %d" % (f["nh"], n)
+    cons = data[:hl]
+    # keep mask from an independent reading of the bytes
+    if ver == 4:
+        ihl = (data[0] & 15) * 4
+        m = bytearray(_ones(ihl))
+        m[6] = 0x7F
+        m[10] = m[11] = 0
+        if hl > ihl:
+            a = _ones(hl - ihl)
+            a[2] = a[3] = 0
+            m += a
+        ck = _iph_ck_of(w[:ihl])
+        if (w[10] << 8 | w[11]) != ck:
+            return "written header checksum %02x%02x is not the RFC 1071 checksum %04x" % (w[10], w[11], ck)
+        want_fr = 1 if (data[6] & 0x20) or ((data[6] & 0x1F) << 8 | data[7]) else 0
+        want_ls = 4
+        want_plen = (data[2] << 8 | data[3]) - hl
+        canon2 = _iph_canon_ck(f["v"], ck)
+        if (hl > ihl) != (data[9] == 51):
+            return "authentication header present = %s but protocol is %d" % (hl > ihl, data[9])
+    else:
+        pl = data[4] << 8 | data[5]
+        ext_area = data[40:] if (pl == 0 and len(data) > 40) else data[40:40 + pl]
+        cm = _iph_chain_mask(data[6], ext_area)
+        if cm is None:
+            return "from_slice accepts an extension chain the reference walk rejects"
+        m = bytearray(_ones(40)) + bytearray(cm[0])
+        if len(m) != hl:
+            return "reference walk consumes %d bytes, header_len is %d" % (len(m), hl)
+        if cm[1] != n:
+            return "reference walk ends on %d, from_slice on %d" % (cm[1], n)
+        want_ls = 0 if (pl == 0 and len(data) > 40) else 6
+        want_plen = len(ext_area) - (hl - 40)
+        want_fr = None
+        canon2 = f["v"]
+    for i in range(hl):
+        if (w[i] ^ cons[i]) & m[i]:
+            return "re-encoded byte %d is %02x, was %02x (keep mask %02x)" % (i, w[i], cons[i], m[i])
+    if ls != want_ls or plen != want_plen or (want_fr is not None and fr != want_fr):
+        return "payload description %s, expected fr=%s ls=%d len=%d" % (f["fs"][-30:], want_fr, want_ls, want_plen)
+    # decode(encode(decode bs) ++ rest)
+    d2 = _iph_sres(f["d2"])
+    if d2 is None:
+        return "decode(write(decode bs) ++ rest) fails: " + f["d2"]
+    c2 = f["v"] if d2[0] == "=" else d2[0]
+    if c2 != canon2 or d2[1:] != fs[1:]:
+        return "decode(write(decode bs) ++ rest) = %s, first decode %s" % (f["d2"][:200], f["fs"][:80])
+    # read over a Cursor
+    rd = _iph_rres(f["rd"])
+    if rd is None:
+        f15 = ver == 6 and (data[4] << 8 | data[5]) == 0 and data[6] in EXT6
+        if not f15:
+            return "read rejects (%s) what from_slice accepts" % f["rd"]
+    elif rd != ("=", n, hl):
+        return "read gives %s, from_slice %s" % (f["rd"][:120], f["fs"][:80])
+    return None
+
+
+def _iph_v4_fields(a):
+    """(canon ipv4, options bytes) or None when the value is not constructible"""
+    v = a[:10]
+    lim = [63, 3, 65535, 65535, 1, 1, 8191, 255, 255, 65535]
+    if not all(_num(x, m) for x, m in zip(v, lim)):
+        return None
+    opt = _unhex(a[12])
+    if len(opt) > 40 or len(opt) % 4 or len(_unhex(a[10])) != 4 or len(_unhex(a[11])) != 4:
+        return None
+    return ",".join(a[:13]), opt
+
+
+def _iph_auth_tok(t, stale="-"):
+    """(nh, token, header length) | None (absent) | False (not constructible)"""
+    if t == "-":
+        return None
+    f = t.split(":")
+    if len(f) != 4 or not (_num(f[0], 255) and _num(f[1], 0xFFFFFFFF) and _num(f[2], 0xFFFFFFFF)):
+        return False
+    for x in (f[3],) if stale == "-" else (f[3], stale):
+        n = len(_unhex(x))
+        if n > 1016 or n % 4:
+            return False
+    return [int(f[0]), f, 12 + len(_unhex(f[3]))]
+
+
+def _iph_raw_tok(t):
+    if t == "-":
+        return None
+    f = t.split(":")
+    n = len(_unhex(f[1]))
+    if len(f) != 2 or not _num(f[0], 255) or n < 6 or n > 2046 or (n - 6) % 8:
+        return False
+    return [int(f[0]), f, 2 + n]
+
+
+def _iph_frag_tok(t):
+    if t == "-":
+        return None
+    f = t.split(":")
+    if len(f) != 4 or not (_num(f[0], 255) and _num(f[1], 8191) and f[2] in ("0", "1") and _num(f[3], 0xFFFFFFFF)):
+        return False
+    return [int(f[0]), f, 8]
+
+
+def _iph_tok_s(x):
+    return "-" if x is None else ":".join(x[1])
+
+
+def _iph_value_parse(a):
+    """returns None (not constructible) or a dict describing the value independent of the model"""
+    if a[0] == "4":
+        f = a[1:]
+        if len(f) != 18:
+            return None
+        base = _iph_v4_fields(f)
+        auth = _iph_auth_tok(f[13], f[14])
+        if base is None or auth is False or not _num(f[17], 255):
+            return None
+        return {"ver": 4, "hdr": f[:13], "optlen": len(base[1]), "auth": auth, "payload": _unhex(f[15]),
+                "trail": _unhex(f[16]), "last": int(f[17])}
+    f = a[1:]
+    if len(f) != 16:
+        return None
+    if _ipv6_canon_from_case(f[:7]) is None or not _num(f[15], 255):
+        return None
+    slots = [_iph_raw_tok(f[7]), _iph_raw_tok(f[8]), _iph_raw_tok(f[9]), _iph_raw_tok(f[10]), _iph_frag_tok(f[11]),
+             _iph_auth_tok(f[12])]
+    if any(s is False for s in slots) or (slots[2] is None and slots[3] is not None):
+        return None
+    return {"ver": 6, "hdr": f[:7], "slots": slots, "payload": _unhex(f[13]), "trail": _unhex(f[14]),
+            "last": int(f[15])}
+
+
+def _iph_value_canon(v):
+    if v["ver"] == 4:
+        return "4|%s|%s" % (",".join(v["hdr"]), _iph_tok_s(v["auth"]))
+    s = v["slots"]
+    return "6|%s|[%s]" % (",".join(v["hdr"]), ";".join(_iph_tok_s(x) for x in s))
+
+
+def _iph_relink(v):
+    """what set_next_headers(last) + set_payload_len(len payload) must produce (RFC 8200 order:
+    hop-by-hop, destination options, routing, fragment, authentication, final destination options);
+    returns (value, ether type, set_payload_len ok?)"""
+    import copy
+    b = copy.deepcopy(v)
+    last = v["last"]
+    if v["ver"] == 4:
+        hdr = b["hdr"]
+        exts_len = 0
+        if b["auth"] is not None:
+            b["auth"][0] = last
+            b["auth"][1][0] = str(last)
+            hdr[8] = "51"
+            exts_len = b["auth"][2]
+        else:
+            hdr[8] = str(last)
+        total = 20 + v["optlen"] + exts_len + len(v["payload"])
+        ok = exts_len + len(v["payload"]) <= 65535 - 20 - v["optlen"]
+        if ok:
+            hdr[2] = str(total)
+        return b, 2048, ok
+    s = b["slots"]
+    order = [(0, 0), (1, 60), (2, 43), (4, 44), (5, 51), (3, 60)]   # (slot index, IANA number) in RFC order
+    nxt = last
+    for idx, num in reversed(order):
+        if s[idx] is not None:
+            s[idx][0] = nxt
+            s[idx][1][0] = str(nxt)
+            nxt = num
+    b["hdr"][3] = str(nxt)
+    exts_len = sum(x[2] for x in s if x is not None)
+    ok = exts_len + len(v["payload"]) <= 65535
+    if ok:
+        b["hdr"][2] = str(exts_len + len(v["payload"]))
+    return b, 34525, ok
+
+
+def _iph_expect_decode(v, w, status_ok, nh, prefix, f, what):
+    """the round-trip demand for a well-formed value: decoders on write(v) ++ payload ++ trail"""
+    payload, trail = v["payload"], v["trail"]
+    inp_len = len(w) + len(payload) + len(trail)
+    hl = len(w)
+    canon = _iph_value_canon(v)
+    if v["ver"] == 4:
+        ihl = 20 + v["optlen"]
+        ck = _iph_ck_of(w[:ihl])
+        if (w[10] << 8 | w[11]) != ck:
+            return "%s: written header checksum is not the RFC 1071 checksum %04x" % (what, ck)
+        want_canon = _iph_canon_ck(canon, ck)
+        ann = int(v["hdr"][2])
+        fr = 1 if (v["hdr"][5] == "1" or int(v["hdr"][6]) != 0) else 0
+        ls, plen = 4, ann - hl
+        ok_slice = ann <= inp_len
+    else:
+        want_canon = canon
+        pl = int(v["hdr"][2])
+        fs_ = v["slots"][4]
+        fr = 1 if fs_ is not None and (fs_[1][2] == "1" or int(fs_[1][1]) != 0) else 0
+        if pl == 0 and inp_len > 40:
+            ls, plen, ok_slice = 0, inp_len - hl, True
+        else:
+            ls, plen, ok_slice = 6, 40 + pl - hl, 40 + pl <= inp_len
+    want_c = "=" if want_canon == canon else want_canon
+    want_fs = "ok:%s:%d,%d,%d,%d+%d" % (want_c, nh, fr, ls, hl, plen) if ok_slice else "err:len"
+    want_rd = "ok:%s:%d,%d" % (want_c, nh, hl)
+    spec = "f4" if v["ver"] == 4 else "f6"
+    other = "f6" if v["ver"] == 4 else "f4"
+    if f[prefix + "fs"] != want_fs:
+        return "%s: from_slice(write v ++ payload ++ trail) = %s, want %s" % (what, f[prefix + "fs"][:160], want_fs[:160])
+    if f[prefix + "rd"] != want_rd:
+        return "%s: read(write v ++ ..) = %s, want %s" % (what, f[prefix + "rd"][:160], want_rd[:160])
+    if prefix == "":
+        if f[spec] != want_fs:
+            return "%s: version-specific decoder %s, from_slice %s" % (what, f[spec][:100], want_fs[:100])
+        if f[other] not in ("err:content", "err:len"):
+            return "%s: the other version's decoder answers %s" % (what, f[other][:60])
+    return None
+
+
+def _iph_oracle_value(parts, il):
+    v = _iph_value_parse(parts[2:])
+    if v is None:
+        return None if il == "noval" else "constructor accepted an out-of-range value: " + il[:80]
+    if il == "noval":
+        return "value is constructible but the harness refused it"
+    f = _iph_toks(il)
+    for k in ("v", "w", "hl", "nh", "fr", "fs", "f4", "f6", "rd", "b", "et", "spl", "bw", "bfs", "brd"):
+        if k not in f:
+            return "malformed line: " + il[:120]
+    canon = _iph_value_canon(v)
+    if f["v"] != canon:
+        return "constructed value %s is not the requested %s" % (f["v"][:150], canon[:150])
+    # header_len = sum of the parts
+    if v["ver"] == 4:
+        want_hl = 20 + v["optlen"] + (v["auth"][2] if v["auth"] is not None else 0)
+    else:
+        want_hl = 40 + sum(x[2] for x in v["slots"] if x is not None)
+    if int(f["hl"]) != want_hl:
+        return "header_len %s, the parts add up to %d" % (f["hl"], want_hl)
+    # write succeeds iff the chain walks, with the same error; bytes = header_len
+    wst, whex = f["w"].rsplit(":", 1)
+    w = _unhex(whex)
+    if f["nh"].startswith("ok:"):
+        if wst != "ok":
+            return "next_header() = %s but write = %s" % (f["nh"], wst)
+        if len(w) != want_hl:
+            return "write emitted %d bytes, header_len %d" % (len(w), want_hl)
+        nh = int(f["nh"][3:])
+    else:
+        if wst != f["nh"]:
+            return "next_header() = %s but write = %s" % (f["nh"], wst)
+        nh = None
+        # the IP header has gone out before the walk fails
+        want_part = 20 + v["optlen"] if v["ver"] == 4 else 40
+        if len(w) < want_part:
+            return "failed write left %d bytes, the IP header alone has %d" % (len(w), want_part)
+    # well-formed (independent reading of the case): linked to a non-extension number, lengths cover the headers
+    if v["ver"] == 4:
+        # x4_linked: the authentication header is present exactly when the protocol field announces it
+        wf = nh is not None and want_hl <= int(v["hdr"][2]) and ((v["auth"] is None) == (v["hdr"][8] != "51"))
+    else:
+        wf = nh is not None and nh not in EXT6 and want_hl - 40 <= int(v["hdr"][2])
+    if wf:
+        why = _iph_expect_decode(v, w, True, nh, "", f, "value")
+        if why:
+            return why
+    # built value
+    b, et, spl_ok = _iph_relink(v)
+    if f["et"] != str(et):
+        return "set_next_headers returned ether type %s" % f["et"]
+    if (f["spl"] == "ok") != spl_ok:
+        return "set_payload_len = %s, expected ok=%s" % (f["spl"], spl_ok)
+    if not spl_ok:
+        return None
+    bc = _iph_value_canon(b)
+    if f["b"] != bc:
+        return "after set_next_headers/set_payload_len: %s, expected %s" % (f["b"][:150], bc[:150])
+    if (v["ver"] == 6 and v["last"] in EXT6) or (v["ver"] == 4 and v["last"] == 51 and v["auth"] is None):
+        return None               # a chain ending on an extension number need not decode (C12_ex_needs_non_ext)
+    bwst, bwhex = f["bw"].rsplit(":", 1)
+    bw = _unhex(bwhex)
+    if bwst != "ok" or len(bw) != want_hl:
+        return "write of the built value: %s, %d bytes (header_len %d)" % (bwst, len(bw), want_hl)
+    return _iph_expect_decode(b, bw, True, v["last"], "b", f, "built value")
+
+
+_oracle_base_c08c = _oracle
+
+
+def _oracle(parts, il):
+    if parts[1] != "iph":
+        return _oracle_base_c08c(parts, il)
+    if il.startswith("PANIC") or il.startswith("CRASH") or il.startswith("NOT-RUN"):
+        return il[:200]
+    if parts[0] == "v":
+        return _iph_oracle_value(parts, il)
+    return _iph_oracle_bytes(parts, il)
+
+
+def _iph_ck_fix(h):
+    h[10] = h[11] = 0
+    ck = _rfc1071(h)
+    h[10] = ck >> 8
+    h[11] = ck & 255
+
+
+def _iph_ext_header(rng, kind, nxt):
+    if kind == 44:
+        return _fragx(rng, nxt)[0]
+    if kind == 51:
+        return _ah(rng, nxt)[0]
+    return _rawx(rng, nxt)[0]
+
+
+def gen_iph_bytes(rng, tier):
+    k = 6 if tier == "thorough" else 1
+    out = []
+    # IPv6: every sequence of <= 3 header kinds (repeats in every position), lengths exact / 0 (up to the
+    # slice end; with extensions = F15 for read) / cut at and one byte before every header boundary / beyond
+    # the slice / trailing bytes
+    kinds = (0, 60, 43, 44, 51)
+    seqs = [[]] + [[a] for a in kinds] + [[a, b] for a in kinds for b in kinds] + \
+           [[a, b, c] for a in kinds for b in kinds for c in kinds]
+    for rep in range(k):
+        for seq in seqs:
+            final = rng.choice(FINALS)
+            hs = []
+            for i, kd in enumerate(seq):
+                hs.append(_iph_ext_header(rng, kd, seq[i + 1] if i + 1 < len(seq) else final))
+            chain = b"".join(hs)
+            payload = rng.bytes(rng.below(6))
+            h = bytearray(_blob(rng, 40))
+            h[0] = 0x60 | (h[0] & 15)
+            h[6] = seq[0] if seq else final
+            bounds = [0]
+            for x in hs:
+                bounds.append(bounds[-1] + len(x))
+            lens = {len(chain) + len(payload), 0, len(chain)}
+            for bd in bounds:
+                lens.add(bd)
+                if bd:
+                    lens.add(bd - 1)
+                lens.add(bd + 1)
+            lens.add(len(chain) + len(payload) + 3)
+            for pl in sorted(lens):
+                h[4] = pl >> 8
+                h[5] = pl & 255
+                body = chain + payload
+                out.append("b iph " + hx(bytes(h) + body + rng.bytes(rng.below(3))))
+                if rng.chance(1, 4) and len(body) > 1:
+                    out.append("b iph " + hx(bytes(h) + body[:rng.below(len(body))]))
+    # IPv4: every IHL, with / without AH, total_len exact / below the header / inside the AH / beyond the slice,
+    # AH payload length 0, fragmentation bits, valid and invalid header checksum
+    for rep in range(4 * k):
+        for ihl in range(0, 16):
+            for with_ah in (0, 1):
+                n = max(ihl, 5) * 4
+                h = bytearray(_blob(rng, n))
+                h[0] = 0x40 | ihl
+                ah = _ah(rng, rng.choice(FINALS + [51]))[0] if with_ah else b""
+                h[9] = 51 if (with_ah and rng.chance(9, 10)) else rng.choice([6, 17, 51, 0, 255])
+                payload = rng.bytes(rng.below(8))
+                exact = n + len(ah) + len(payload)
+                for tl in {exact, n, n - 1, n + len(ah), n + max(len(ah) - 1, 0), n + 11, n + 12, exact + 1, 0,
+                           rng.below(65536)}:
+                    tl = max(tl, 0)
+                    h[2] = tl >> 8
+                    h[3] = tl & 255
+                    h[6] = rng.choice([0, 0, 0x20, 0x40, 0x80, 0x1F, rng.below(256)])
+                    if rng.chance(1, 2):
+                        _iph_ck_fix(h)
+                    a2 = bytearray(ah)
+                    if a2 and rng.chance(1, 12):
+                        a2[1] = rng.choice([0, 255, a2[1] + 1])
+                    out.append("b iph " + hx(bytes(h) + bytes(a2) + payload + rng.bytes(rng.below(3))))
+    # malformed: every version nibble x short / long inputs
+    for ver in range(16):
+        for n in (0, 1, 2, 19, 20, 21, 39, 40, 41, 60, 61):
+            d = bytearray(_blob(rng, n))
+            if d:
+                d[0] = (ver << 4) | (d[0] & 15)
+            out.append("b iph " + hx(bytes(d)))
+    return out
+
+
+def _iph_v4_value(rng):
+    ol = 4 * rng.below(11) if rng.chance(1, 2) else 0
+    opt = _blob(rng, ol)
+    auth = "-"
+    stale = "-"
+    ahl = 0
+    if rng.chance(1, 2):
+        kk = rng.below(7) if rng.chance(7, 8) else rng.below(255)
+        auth = "%d:%d:%d:%s" % (rng.choice(FINALS + [51, _edge(rng, 8)]), _edge(rng, 32), _edge(rng, 32), hx(_blob(rng, 4 * kk)))
+        ahl = 12 + 4 * kk
+        if rng.chance(1, 4) and kk < 254:
+            stale = hx(_blob(rng, 4 * rng.range(kk + 1, 254)))
+    pr = (51 if auth != "-" else rng.choice(FINALS)) if rng.chance(9, 10) else rng.choice([51, 6, 17, 0, 255])
+    payload = rng.bytes(rng.below(12))
+    exact = 20 + ol + ahl + len(payload)
+    tl = exact if rng.chance(3, 4) else rng.choice([0, 20 + ol, 20 + ol + ahl, max(20 + ol + ahl - 1, 0), exact + 1,
+                                                   exact - 1 if exact else 0, 65535, rng.below(65536)])
+    tl = min(max(tl, 0), 65535)
+    fields = [_edge(rng, 6), _edge(rng, 2), tl, _edge(rng, 16), rng.below(2), rng.below(2),
+              rng.choice([0, 0, _edge(rng, 13)]), _edge(rng, 8), pr, _edge(rng, 16)]
+    src, dst = _blob(rng, 4), _blob(rng, 4)
+    if rng.chance(1, 2):          # consistent header checksum
+        h = bytearray(20 + ol)
+        h[0] = 0x40 | (5 + ol // 4)
+        h[1] = (fields[0] << 2) | fields[1]
+        h[2], h[3] = tl >> 8, tl & 255
+        h[4], h[5] = fields[3] >> 8, fields[3] & 255
+        h[6] = (0x40 if fields[4] else 0) | (0x20 if fields[5] else 0) | (fields[6] >> 8)
+        h[7] = fields[6] & 255
+        h[8], h[9] = fields[7], pr
+        h[12:16] = src
+        h[16:20] = dst
+        h[20:] = opt
+        fields[9] = _rfc1071(h)
+    last = rng.choice(FINALS + [51, 0, 60, 255])
+    return "v iph 4 %s %s %s %s %s %s %s %s %d" % (" ".join(str(x) for x in fields), hx(src), hx(dst), hx(opt), auth,
+                                                 stale, hx(payload), hx(rng.bytes(rng.below(4))), last)
+
+
+def _iph_v6_value(rng):
+    present = [rng.chance(1, 3), rng.chance(1, 3), rng.chance(1, 3), False, rng.chance(1, 3), rng.chance(1, 3)]
+    present[3] = present[2] and rng.chance(1, 2)
+    nums = [0, 60, 43, 60, 44, 51]
+    order = [0, 1, 2, 4, 5, 3]
+    final = rng.choice(FINALS)
+    nh = {}
+    nxt = final
+    for idx in reversed(order):
+        if present[idx]:
+            nh[idx] = nxt
+            nxt = nums[idx]
+    first = nxt
+    broken = rng.chance(1, 8)
+    toks = []
+    exts_len = 0
+    for idx in range(6):
+        if not present[idx]:
+            toks.append("-")
+            continue
+        n = nh[idx] if not (broken and rng.chance(1, 2)) else rng.choice([0, 43, 44, 51, 60, 17, _edge(rng, 8)])
+        if idx == 4:
+            toks.append("%d:%d:%d:%d" % (n, rng.choice([0, 0, _edge(rng, 13)]), rng.below(2), _edge(rng, 32)))
+            exts_len += 8
+        elif idx == 5:
+            kk = rng.below(6)
+            toks.append("%d:%d:%d:%s" % (n, _edge(rng, 32), _edge(rng, 32), hx(_blob(rng, 4 * kk))))
+            exts_len += 12 + 4 * kk
+        else:
+            kk = rng.below(3) if rng.chance(15, 16) else rng.below(256)
+            toks.append("%d:%s" % (n, hx(_blob(rng, 6 + 8 * kk))))
+            exts_len += 8 + 8 * kk
+    if broken and rng.chance(1, 2):
+        first = rng.choice([0, 43, 44, 51, 60, 17])
+    payload = rng.bytes(rng.below(12))
+    exact = exts_len + len(payload)
+    pl = exact if rng.chance(3, 4) else rng.choice([0, exts_len, max(exts_len - 1, 0), exact + 1, 65535, rng.below(65536)])
+    pl = min(pl, 65535)
+    last = rng.choice(FINALS + [51, 0, 60, 255])
+    return "v iph 6 %d %d %d %d %d %s %s %s %s %s %d" % (
+        _edge(rng, 8), _edge(rng, 20), pl, first, _edge(rng, 8), hx(_blob(rng, 16)), hx(_blob(rng, 16)),
+        " ".join(toks), hx(payload), hx(rng.bytes(rng.below(4))), last)
+
+
+def gen_iph_values(rng, tier):
+    k = 8 if tier == "thorough" else 1
+    out = []
+    for _ in range(2500 * k):
+        out.append(_iph_v4_value(rng))
+        out.append(_iph_v6_value(rng))
+    # not constructible
+    z16 = "00" * 16
+    out += ["v iph 4 64 0 20 0 0 0 0 0 6 0 00000000 00000000 - - - - - 6",
+            "v iph 4 0 0 20 0 0 0 8192 0 6 0 00000000 00000000 - - - - - 6",
+            "v iph 4 0 0 20 0 0 0 0 0 6 0 00000000 00000000 010203 - - - - 6",
+            "v iph 4 0 0 20 0 0 0 0 0 51 0 00000000 00000000 - 6:1:2:010203 - - - 6",
+            "v iph 6 0 1048576 0 6 0 %s %s - - - - - - - - 6" % (z16, z16),
+            "v iph 6 0 0 0 6 0 %s %s - - - 6:010203040506 - - - - 6" % (z16, z16),
+            "v iph 6 0 0 0 6 0 %s %s 6:0102030405 - - - - - - - 6" % (z16, z16)]
+    return out
+
+
+_corpus_base_c08c = corpus
+
+
+def corpus():
+    a1 = "01" * 16
+    a2 = "02" * 16
+    return _corpus_base_c08c() + [
+        # IPv4 + AH, total_len 40, 4 payload bytes, one trailing byte
+        "b iph 4500002800010000403300000a0000010a000002" + "11020000000000010000000201020304" + "09090909" + "07",
+        # IPv6: hop-by-hop, fragment (reserved bits set), UDP; payload_length 18 + 2 trailing bytes
+        "b iph 6000000000120040" + a1 + a2 + "2c00010203040506" + "11aa000f00000001" + "0909" + "0707",
+        # F15's input: payload_length 0 with an extension header: from_slice accepts, read refuses
+        "b iph 60000000" + "0000" + "3c40" + a1 + a2 + "1100000000000000" + "0909",
+        # announced packet missing: IPv4 header announcing 28 bytes, 20 present: read accepts
+        "b iph 4500001c00000000401100000a0000010a000002",
+        "v iph 4 0 0 40 1 0 0 0 64 51 0 0a000001 0a000002 - 17:1:2:01020304 - 09090909 07 6",
+        "v iph 4 63 3 65535 65535 1 1 8191 255 51 65535 ffffffff ffffffff " + "ff" * 40 + " 255:4294967295:4294967295:"
+        + "ff" * 1016 + " - - - 255",
+        "v iph 6 0 0 18 0 64 " + a1 + " " + a2 + " 44:010203040506 - - - 17:1:1:1 - 0909 0707 17",
+        # chain that does not walk: routing header present, nothing announces it
+        "v iph 6 0 0 16 17 64 " + a1 + " " + a2 + " - - 17:010203040506 - - - 0909 - 6",
+        # authentication header the protocol field does not announce
+        "v iph 4 0 0 36 1 0 0 0 64 6 0 0a000001 0a000002 - 17:1:2:01020304 - - - 6",
+    ]
+
+
+_gen_cases_base_c08c = gen_cases
+
+
+def gen_cases(rng, tier):
+    return _gen_cases_base_c08c(rng, tier) + gen_iph_bytes(rng, tier) + gen_iph_values(rng, tier)
+
+
+_compare_base_c08c = compare
+
+
+def compare(ctx, cases, impl, model_lines):
+    res = _compare_base_c08c(ctx, cases, impl, model_lines)
+    hist = res["hist"]
+    first_prof = next(iter(impl.values()))
+    acc = vals = wfv = f15 = rdonly = 0
+    seen = set()
+    extra_nontriv = 0
+    for i, c in enumerate(cases):
+        if not c.startswith("b iph ") and not c.startswith("v iph "):
+            continue
+        il = first_prof[i]
+        if c.startswith("v iph "):
+            vals += 1
+            if model_lines is not None and " | wf=1" in model_lines[i]:
+                wfv += 1
+            continue
+        if " fs=ok" in il:
+            acc += 1
+            if " rd=err" in il:
+                f15 += 1
+            if c not in seen:
+                seen.add(c)
+                extra_nontriv += 1
+        elif " rd=ok" in il:
+            rdonly += 1
+    hist["iph:accepted_bytes"] = acc
+    hist["iph:values"] = vals
+    hist["iph:values_wellformed(model iph_wf)"] = wfv
+    hist["iph:from_slice_ok_read_err(F15 class)"] = f15
+    hist["iph:read_ok_from_slice_err(announced packet missing)"] = rdonly
+    res["nontrivial"] = res.get("nontrivial", 0) + extra_nontriv
+    ex = res.setdefault("extra", {})
+    ex["iph_model"] = "Roundtrip/IpHeaders.v (composed: Ipv4Header, Ipv6Header, Ipv4Extensions of C08; Ipv6Extensions + read_limited of C12)"
+    return res
+# ---- end extend-c08c ----
